@@ -8,17 +8,17 @@ pub assume_specification<I: core::slice::SliceIndex<str>>[ <str as core::ops::In
 // the contracts of this framework use the char-level view `s@`.
 pub axiom fn axiom_utf8_boundary(s: &str, k: int)
     requires 0 <= k <= s@.len()
-    ensures vstd::utf8::is_char_boundary(s.spec_bytes(), blen(s@.take(k)) as int);
+    ensures vstd::utf8::is_char_boundary(s.spec_bytes(), boff(s@, k) as int);
 
 pub axiom fn axiom_utf8_bytes_len(s: &str)
     ensures s.spec_bytes().len() == blen(s@);
 
 pub axiom fn axiom_utf8_suffix_view(s: &str, t: &str, k: int)
-    requires 0 <= k <= s@.len(), t.spec_bytes() == s.spec_bytes().subrange(blen(s@.take(k)) as int, s.spec_bytes().len() as int)
+    requires 0 <= k <= s@.len(), t.spec_bytes() == s.spec_bytes().subrange(boff(s@, k) as int, s.spec_bytes().len() as int)
     ensures t@ == s@.skip(k);
 
 pub axiom fn axiom_utf8_prefix_view(s: &str, t: &str, k: int)
-    requires 0 <= k <= s@.len(), t.spec_bytes() == s.spec_bytes().subrange(0, blen(s@.take(k)) as int)
+    requires 0 <= k <= s@.len(), t.spec_bytes() == s.spec_bytes().subrange(0, boff(s@, k) as int)
     ensures t@ == s@.take(k);
 
 pub assume_specification<'a>[ <std::str::CharIndices<'a> as Clone>::clone ](it: &std::str::CharIndices<'a>) -> (r: std::str::CharIndices<'a>)
